@@ -1,4 +1,5 @@
 """Path context: decisions, path condition, obligations, ghost trace."""
+import gc
 import threading
 import z3
 from .values import Namer
@@ -11,6 +12,13 @@ except Exception:      # pragma: no cover
     pass
 
 
+# Python's cyclic garbage collector runs in whichever thread happens to allocate; if that is the watchdog
+# thread, z3 objects are released (Z3_dec_ref) concurrently with the main thread's API calls, which corrupts
+# z3's heap (observed: segfaults, "double free", nonsense API errors).  The collector is therefore switched
+# off and run explicitly, in the main thread, between paths (Ctx.__init__).
+gc.disable()
+
+
 def guarded_check(solver, timeout_ms):
     """solver.check() with a hard wall-clock guard: z3's own timeout is not always honoured by the
     sequence solver, so a watchdog thread interrupts the context.  The interrupt is only ever sent
@@ -18,12 +26,14 @@ def guarded_check(solver, timeout_ms):
     by a throw-away check before anything else touches the context."""
     lock = threading.Lock()
     state = {"running": True, "fired": False}
+    zctx = solver.ctx      # the watchdog thread must not hold (and so never be the one to release) a solver or an
+    #                        expression: z3 reference counts are not thread safe (see also the gc note below)
 
     def fire():
         with lock:
             if state["running"]:
                 state["fired"] = True
-                solver.ctx.interrupt()
+                zctx.interrupt()
 
     t = threading.Timer(2 * timeout_ms / 1000.0 + 10.0, fire)    # only for a solver that ignores its own timeout
     t.daemon = True
@@ -76,6 +86,8 @@ class VC:
 
 class Ctx:
     def __init__(self, decisions=(), branch_timeout_ms=1500, check_feasibility=True):
+        if threading.current_thread() is threading.main_thread():
+            gc.collect()
         self.decisions = list(decisions)
         self.pos = 0
         self.alts = []
